@@ -49,12 +49,14 @@ mut("C03", "merge-drops-newer-own-entry", CR, "            if let Some(deleted) 
 mut("C08", "purge-condition-negated", CR, "            if !self.versions.is_ts_before_last_observed_event(stamp) {\n                self.dead.insert(k, stamp);", "            if self.versions.is_ts_before_last_observed_event(stamp) {\n                self.dead.insert(k, stamp);")
 mut("C08", "safe-stamp-max-over-sources", CR, "            .min();\n\n        if let Some(min) = min {", "            .max();\n\n        if let Some(min) = min {")
 mut("C08", "no-forgiveness", CR, "min.datacake_timestamp().saturating_sub(FORGIVENESS_PERIOD)", "min.datacake_timestamp()", also=("C04",))
+mut("C08", "forgiveness-10-minutes", CR, "    Duration::from_secs(3_600)\n};", "    Duration::from_secs(600)\n};")
+mut("C08", "cutoff-ignores-repair-source", CR, "            .min();\n\n        if let Some(min) = min {", "            .next();\n\n        if let Some(min) = min {")
+mut("C08", "purge-keeps-storage-tombstones", AC, "            .remove_tombstones(&self.name, changes.iter().map(|(key, _)| *key))", "            .remove_tombstones(&self.name, changes.iter().map(|(key, _)| *key).take(0))", also=("C02",))
 mut("C08", "purge-also-drops-entries", CR, "        let mut deleted_keys = vec![];\n        for (k, stamp) in mem::take(&mut self.dead) {", "        let mut deleted_keys = vec![];\n        self.entries.pop_first();\n        for (k, stamp) in mem::take(&mut self.dead) {")
 # --- C01
 mut("C01", "poller-skips-removals", PO, "                change.removed,\n                change.modified,", "                Default::default(),\n                change.modified,")
 mut("C01", "poller-skips-modified", PO, "                change.removed,\n                change.modified,", "                change.removed,\n                Default::default(),")
 mut("C01", "diff-direction-swapped", PO, "        modified: modified\n            .into_iter()", "        modified: removed.clone()\n            .into_iter()")
-mut("C08", "repair-uses-consistency-source", PO, "            source: READ_REPAIR_SOURCE_ID,\n            docs: DocVec::from_vec(docs),", "            source: 0,\n            docs: DocVec::from_vec(docs),")
 mut("C01", "last-updated-not-bumped-on-del", AC, "        self.state\n            .delete_with_source(msg.source, msg.doc.id, msg.doc.last_updated);\n        self.inc_change_timestamp().await;", "        self.state\n            .delete_with_source(msg.source, msg.doc.id, msg.doc.last_updated);")
 # --- C02
 mut("C02", "F11-reverted-set", AC, "        docs.retain(|doc| seen_ids.insert(doc.id()));", "        docs.retain(|doc| seen_ids.insert(doc.id()) || true);")
